@@ -397,6 +397,41 @@ def run(tier):
                 add(ep, data, d, m)
                 nexp += 1
     chk.extra["key_insertions_written_out"] = nexp
+
+    # decode parameters written out: SetNumber on one (or two) of Columns / Colors / BitsPerComponent is a single draw of the
+    # simulation, and which branch of the decoder the number reaches depends on a SECOND entry, the /Predictor selector (the
+    # TIFF branch and the PNG branch clamp and check their parameters separately).  The product  selector x parameter x
+    # Adversary!Numbers  is small, so it is enumerated for one Flate and one LZW seed instead of being left to two lucky draws
+    # (seeded change C04-a7: /Predictor 2 with /Columns 0 reached chunks_mut(0)).
+    NUMBERS = [-1, 0, 1, 2 ** 31, 2 ** 32, 2 ** 63, 10 ** 18, 2 ** 64]      # Adversary!Numbers
+    SELECTORS = [0, 1, 2, 3, 9, 10, 11, 12, 13, 14, 15, 16]
+    PARMS = ["Columns", "Colors", "BitsPerComponent"]
+
+    def tint_(v):
+        return {"k": "int", "neg": v < 0, "v": [int(ch) for ch in str(abs(v))]}
+
+    ngrid = 0
+    done_tags = set()
+    for r in read_ndjson(seeds):
+        if r.get("tag") not in ("flate+png", "lzw+png") or r["tag"] in done_tags:
+            continue
+        done_tags.add(r["tag"])
+        di = [i for i, kv in enumerate(r["dict"]) if bytes(kv[0]) == b"DecodeParms"][0]
+        for sel in SELECTORS:
+            settings = [((pn, v),) for pn in PARMS for v in NUMBERS] + [((a, 0), (b, 0)) for a in PARMS for b in PARMS if a < b]
+            for setting in settings:
+                d = json.loads(json.dumps(r["dict"]))
+                ent = d[di][1]["v"]
+                muts = []
+                for name, v in (("Predictor", sel),) + setting:
+                    j = [j for j, kv in enumerate(ent) if bytes(kv[0]) == name.encode()][0]
+                    ent[j][1] = tint_(v)
+                    muts.append({"k": "SetNumber", "nm": list(name.encode()), "idx": (di + 1) * 1000 + j + 1, "v": list(str(v).encode()), "a": "dict"})
+                m = {"src": "tlc:seed:%s+parms" % r["tag"], "muts": muts, "trivial": False, "rdok": False, "neutral": False, "rec": -1,
+                     "rep": "", "use": [], "probes": [], "wzero": False, "nest": []}
+                add("filter", r["bytes"], d, m)
+                ngrid += 1
+    chk.extra["decode_parameters_written_out"] = ngrid
     ntlc = len(cases)
 
     # budget: of the inputs the classifier predicts to end in an already listed signature that costs wall-clock time (a hang
